@@ -109,7 +109,11 @@ def prior_inputs(pe, spec, npar):
         if form == 'str':
             o = pe.cov_Obs(val, err ** 2, 'tmp')
             s = str(o)          # '0.80(10)'
-            pv, pd = pe.fits._extract_val_and_dval(s)
+            # the documented forms: 0.548(23), 500(40), 0.5(0.4); values with trailing zeros on purpose
+            s = {0: '0.90(20)', 1: '-0.30(25)', 2: '0.2(0.3)', 3: '-0.020(10)'}.get(idx, s) if abs(val) < 5 else s
+            from checks.c19 import parse
+            _, V, E, _unit = parse(s)        # the documented reading of 'value(error)', independent of the library's parser
+            pv, pd = float(V), float(E)
             objs[idx] = s
             refs.append((idx, ref.r_cov(pv, pd ** 2, '#prior%d' % idx, 0), pv, pd))
         else:
